@@ -289,7 +289,7 @@ def jobs(tier):
     for nlog in range(0, 3):
         for nact in range(0, nlog + 1):
             out.append(dict(func="step", params=dict(nlog=nlog, nact=nact)))
-    for k in range(0, (3 if tier == "quick" else 5) + 1):
+    for k in range(0, (3 if tier == "quick" else 7) + 1):
         out.append(dict(func="history", params=dict(k=k), weight=k))
     for nlog in ((100, 1000, 1024) if tier == "quick" else (100, 255, 256, 1000, 1001, 1024, 4096, 10000, 65536)):
         out.append(dict(func="long_step", params=dict(nlog=nlog)))
@@ -320,7 +320,7 @@ META = dict(
                "thread scheduling is outside. Step invariant: 'active' is a suffix of 'log'.",
     bounds=dict(quick="step: log length 0..2 with active suffix 0..len, frame fully symbolic; histories k<=3; producer "
                       "data length 0..5; all 65536 codes; wait patterns of up to 3 wake-ups",
-                thorough="histories k<=5"),
+                thorough="histories k<=7; long-history steps up to 65536 entries"),
     outside_bounds=["two frames delivered inside one wake-up of wait() (the implementation inspects only the last "
                     "log entry)", "OS-thread interleavings", "data longer than 5 bytes"],
     assumptions=["fake clock: a wake-up without delivery advances time by the time-out"],
